@@ -32,7 +32,9 @@ RULE = (
     "every result equals the result of the same request on a freshly built instance (rtol 1e-9); operand content "
     "and caller arrays byte-identical after every operation; writes raise or leave the matrix unchanged; twin "
     "built from equal parameters is == and hash-equal; == implies equal dense arrays (checked on the mutated "
-    "variant); copies equal originals. Non-trivial: history with >= 2 distinct lazy attributes requested before "
+    "variant); copies equal originals; (one case in 64) a matrix pickled - after hash / inv / T / array were "
+    "evaluated or not - and loaded in ANOTHER interpreter with a different hash salt equals, and hashes equal to, a "
+    "matrix built there from equal parameters. Non-trivial: history with >= 2 distinct lazy attributes requested before "
     "a third one, or a successful-or-rejected write, or a copy. Distinct by SHA-1 of the canonical JSON."
 )
 ASSUMPTIONS = [
@@ -66,7 +68,73 @@ def _case(draw):
 
 
 def strategy(tier):
-    return _case()
+    other = st.builds(lambda t, w: {"kind": "other-interpreter", "tree": t, "warm": w},
+                      mtree.tree(max_n=4, max_depth=2), st.lists(st.sampled_from(["hash", "inv", "T", "array"]), max_size=3))
+    # one case in 64 starts a second interpreter (about a second each)
+    return st.integers(0, 63).flatmap(lambda k: other if k == 0 else _case())
+
+
+_CHILD = r"""
+import sys, json, pickle
+sys.path[:0] = json.loads(sys.argv[1])
+from vf.props import c19
+import numpy as np
+spec = json.loads(sys.argv[2])
+M = pickle.loads(bytes.fromhex(sys.stdin.read()))
+fresh, _ = c19.build(spec)
+out = {"eq": bool(M == fresh.M and fresh.M == M), "hash_eq": hash(M) == hash(fresh.M),
+       "same_in_set": len({M, fresh.M}) == 1,
+       "array_eq": bool(np.array_equal(np.asarray(M.array), np.asarray(fresh.M.array)))}
+print("RESULT " + json.dumps(out))
+"""
+
+
+def run_other_interpreter(case) -> Result:
+    """A matrix pickled here and loaded in ANOTHER interpreter (different hash salt, as a worker started with the
+    spawn method or a later session) must equal, and hash equal to, a matrix built there from equal parameters."""
+    import json
+    import os
+    import subprocess
+    import sys
+
+    res = Result()
+    try:
+        x, _ = build(case["tree"])
+    except (mtree.Discard, mtree.SqrtMismatch):
+        res.discarded = True
+        return res
+    M = x.M
+    label = type(M).__name__
+    res.classes += ["other-interpreter", "root:" + label]
+    try:
+        for w in case["warm"]:
+            if w == "hash":
+                hash(M)
+            elif applicable(M, w, 1.0):
+                getattr(M, w)
+        blob = pickle.dumps(M)
+    except Exception as e:  # noqa: BLE001
+        if through_code_under_test(e.__traceback__) is None:
+            raise
+        res.fail(f"C19:{label}:pickle:raises:{type(e).__name__}", str(e))
+        return res
+    env = dict(os.environ, PYTHONHASHSEED="12345")
+    p = subprocess.run([sys.executable, "-c", _CHILD, json.dumps([q for q in sys.path if q]), json.dumps(case["tree"])],
+                       input=blob.hex(), capture_output=True, text=True, env=env, timeout=120)
+    line = [ln for ln in p.stdout.splitlines() if ln.startswith("RESULT ")]
+    if not line:
+        from vf.core import HarnessError
+
+        raise HarnessError("C19 child interpreter failed: " + p.stderr[-1500:])
+    out = json.loads(line[0][7:])
+    res.nontrivial = True
+    if not out["eq"] or not out["array_eq"]:
+        res.fail(f"C19:{label}:unpickled-in-other-interpreter-not-equal", f"{label} unpickled in another interpreter: {out}")
+    elif not out["hash_eq"] or not out["same_in_set"]:
+        res.fail(f"C19:{label}:unpickled-in-other-interpreter-hash-differs", f"{label} pickled after {case['warm']} and "
+                 f"loaded in another interpreter equals a matrix built there from equal parameters but hashes "
+                 f"differently ({out})")
+    return res
 
 
 # ------------------------------------------------------------------ helpers
@@ -295,6 +363,8 @@ def owner_of(M, a, seen=None):
 
 
 def run_case(case) -> Result:
+    if case.get("kind") == "other-interpreter":
+        return run_other_interpreter(case)
     res = Result()
     spec, data, s = case["tree"], case["data"], case["s"]
     try:
